@@ -19,6 +19,7 @@
 package sched
 
 import (
+	"runtime"
 	"syscall"
 	"unsafe"
 )
@@ -32,6 +33,7 @@ const (
 
 type Worker struct {
 	ID       int
+	goid     uint64
 	rfd, wfd int
 	status   byte
 	site     string
@@ -137,11 +139,39 @@ func fnv(s string) uint32 {
 
 // worker side ---------------------------------------------------------------
 
+// goid returns the id of the calling goroutine (parsed from the header of its
+// stack trace; about a microsecond, paid only at real switch points).
+//
+//go:norace
+func goid() uint64 {
+	var buf [40]byte
+	n := runtime.Stack(buf[:], false)
+	// "goroutine 123 ["
+	var id uint64
+	for i := len("goroutine "); i < n && buf[i] >= '0' && buf[i] <= '9'; i++ {
+		id = id*10 + uint64(buf[i]-'0')
+	}
+	return id
+}
+
+// foreign reports whether the caller is NOT the worker that holds the baton: a
+// goroutine the library started on its own (a finaliser, a helper goroutine of
+// a mutated tree) must never touch scheduler state.
+//
+//go:norace
+func foreign(w *Worker) bool { return w == nil || goid() != w.goid }
+
 //go:norace
 func handoff(kind byte, site string) {
 	w := cur
 	s := active
 	if w == nil || s == nil {
+		return
+	}
+	if foreign(w) {
+		if kind == stBlocked {
+			runtime.Gosched() // a foreign goroutine waiting for a lock: let the holder's OS thread get on
+		}
 		return
 	}
 	w.status = kind
@@ -184,7 +214,7 @@ func Blocked(site string) { handoff(stBlocked, site) }
 //
 //go:norace
 func Acquired(site string) {
-	if w := cur; w != nil {
+	if w := cur; w != nil && !foreign(w) {
 		w.Holding++
 		handoff(stYield, site)
 	}
@@ -194,7 +224,11 @@ func Acquired(site string) {
 //
 //go:norace
 func Unlocked(site string) {
-	if w := cur; w != nil && w.Holding > 0 {
+	w := cur
+	if w == nil || foreign(w) {
+		return
+	}
+	if w.Holding > 0 {
 		w.Holding--
 	}
 	handoff(stUnlock, site)
@@ -209,6 +243,7 @@ func (s *Sched) HoldsLock(id int) bool {
 
 //go:norace
 func (w *Worker) body(s *Sched) {
+	w.goid = goid()
 	rawRead(w.rfd) // wait for the first baton
 	cur = w
 	w.Fn()
@@ -223,7 +258,7 @@ func (w *Worker) body(s *Sched) {
 //go:norace
 func Spawn(site string, fn func()) {
 	s := active
-	if s == nil || cur == nil {
+	if s == nil || cur == nil || foreign(cur) {
 		go fn()
 		return
 	}
